@@ -13,3 +13,16 @@ package simplebankedmemory
 //@   ensures spec.BankAddrConvKind == "" ==> result == addr
 //@   label C24.bankaddr.value
 //@   ensures spec.BankAddrConvKind != "" ==> int(result) == mem.conv(int(addr) - int(spec.BankAddrOffset), int(spec.BankAddrInterleavingSize), int(spec.BankAddrTotalNumOfElements))
+
+// ---- C24: bank selection stripes the (converted) address over the banks ----
+
+//@ fn selectBank
+//@   property C24
+//@   requires 0 < spec.NumBanks
+//@   panics spec.BankSelectorLog2InterleaveSize >= 64
+//@   label C24.selectbank.inrange
+//@   ensures 0 <= result && result < spec.NumBanks
+//@   label C24.selectbank.value
+//@   ensures result == (int(addr) / (1 << int(spec.BankSelectorLog2InterleaveSize))) % spec.NumBanks
+//@   label C24.selectbank.pure
+//@   ensures nothingAssigned()
